@@ -29,6 +29,20 @@ def discover(pkg_prefix="a5"):
             elif hasattr(val, "__dict__") and not isinstance(val, (type, types.ModuleType, types.FunctionType)) \
                     and type(val).__module__.startswith(pkg_prefix):
                 _walk_instance("%s.%s" % (modname, name), val, found, seen, 0)
+        # mutable default arguments of the module's functions and methods are shared between all calls
+        funcs = []
+        for name, val in sorted(vars(mod).items()):
+            if isinstance(val, types.FunctionType) and val.__module__ == modname:
+                funcs.append(("%s.%s" % (modname, name), val))
+            elif isinstance(val, type) and val.__module__ == modname:
+                for mname, mval in sorted(vars(val).items()):
+                    if isinstance(mval, types.FunctionType):
+                        funcs.append(("%s.%s.%s" % (modname, name, mname), mval))
+        for fname, fn in funcs:
+            for i, d in enumerate(fn.__defaults__ or ()):
+                if isinstance(d, (list, dict)) and id(d) not in seen:
+                    seen.add(id(d))
+                    found.append(("%s.__defaults__[%d]" % (fname, i), ("default", fn, i), d))
     return found
 
 
